@@ -48,7 +48,7 @@ m("addx-off", "_align.py", '            result += "x" * g[1]\n            i += 1
 m("dict-insert-pos", "_adapter/dict_adapter.py", "                insert_pos += 1", "                insert_pos += 2", ["C02"], "off-by-one insert position for dict entries")
 m("tuple1-comma", "_change.py", '        if elements == 1 and isinstance(parent, ast.Tuple):', '        if False:', ["C02"], "1-tuple loses its trailing comma after deletion")
 m("delete-wrong-kw", "_adapter/generic_call_adapter.py", "                    kw.value,\n                    self.argument(old_value, kw.arg),", "                    old_node.keywords[0].value,\n                    self.argument(old_value, kw.arg),", ["C02"], "Delete of the wrong keyword")
-m("parens-limit", "_change.py", "            and prev_token.index > left_brace.index\n            and next_token.index < right_brace.index", "", ["C02"], "paren extension may swallow the call's own parentheses f((x))")
+m("parens-limit", "_change.py", "            and prev_token.index > left_brace.index\n            and next_token.index < right_brace.index", "", [], "(only reachable with a custom adapter that keeps a sole positional argument; informational) paren extension may swallow the call's own parentheses f((x))")
 m("eq-merge-keeps-old-leaf", "_adapter/value_adapter.py", "        yield Replace(\n            node=old_node,", "        if isinstance(new_value, bool): return new_value\n        yield Replace(\n            node=old_node,", ["C02"], "bool leaves are never rewritten")
 
 
@@ -74,8 +74,8 @@ m("dictvalue-child-shared", "_snapshot/dict_value.py", "        if index not in 
 m("token-quote-sensitive", "_utils.py", """            ) and self.string.replace("'", '"') == other.string.replace("'", '"')""", "            ) and self.string == other.string", ["C08"], "string tokens compared quote-sensitively: perpetual update")
 m("no-skip-trailing-comma", "_utils.py", "    return skip_complex_parens(skip_trailing_comma(normalize_strings(token_sequence)))", "    return skip_complex_parens(normalize_strings(token_sequence))", ["C08"], "trailing commas make tokens differ: perpetual update of multi-line values")
 m("no-concat-normalize", "_utils.py", "    return skip_complex_parens(skip_trailing_comma(normalize_strings(token_sequence)))", "    return skip_complex_parens(skip_trailing_comma(token_sequence))", ["C08"], "implicit string concatenation not merged")
-m("complex-parens-again", "_utils.py", "        result = result[1:-1]", "        pass", ["C08"], "revert of the complex parentheses fix")
-m("trim-keeps-one", "_snapshot/collection_value.py", "            if old_value not in self._new_value:", "            if old_value not in self._new_value and old_value != self._old_value[0]:", ["C08", "C05"], "trim never removes the first member... second run still wants to trim? (no: stays) -> C05")
+m("complex-parens-again", "_utils.py", "        result = result[1:-1]", "        pass", [], "revert of the complex parentheses fix")
+m("trim-keeps-one", "_snapshot/collection_value.py", "            if old_value not in self._new_value:", "            if old_value not in self._new_value and old_value != self._old_value[0]:", ["C05"], "trim never removes the first member... second run still wants to trim? (no: stays) -> C05")
 m("minmax-trim-halfway", "_snapshot/min_max_value.py", "        new_token = value_to_token(self._new_value)\n        if not cmp(self._old_value, self._new_value):", "        if cmp(self._old_value, self._new_value) and self._old_value != self._new_value and type(self._old_value) is int and type(self._new_value) is int:\n            self._new_value = (self._old_value + self._new_value) // 2 if abs(self._old_value - self._new_value) > 1 else self._new_value\n        new_token = value_to_token(self._new_value)\n        if not cmp(self._old_value, self._new_value):", ["C08", "C05"], "trim of an int bound moves only halfway: a second run trims again")
 
 
@@ -125,7 +125,7 @@ m("no-selfcheck", "_snapshot/generic_value.py", "    if not obj == new:", "    i
 m("set-sort-off", "_code_repr.py", "    set_values = list(map(repr, set_values))\n    if not is_sorted:\n        set_values = sorted(set_values)", "    set_values = list(map(repr, set_values))", ["C16", "C08"], "sets are emitted in iteration order")
 m("set-sort-by-hash", "_code_repr.py", "    if not is_sorted:\n        set_values = sorted(set_values)", "    if not is_sorted:\n        set_values = sorted(set_values, key=hash)", ["C16"], "non-orderable sets sorted by hash of their text")
 m("partial-order-revert", "_code_repr.py", "        is_sorted = all(a < b or a == b for a, b in zip(set_values, set_values[1:]))", "        is_sorted = True", ["C16"], "revert of the partial-order fix")
-m("noblack-different-tokens", "_format.py", "        return text\n\n    with warnings.catch_warnings():", "        return text.replace('frozenset()', 'frozenset([])')\n\n    with warnings.catch_warnings():", ["C16"], "without black a different expression is generated")
+m("noblack-different-tokens", "_format.py", "        return text\n\n    with warnings.catch_warnings():", "        return text.replace('frozenset()', 'frozenset([])')\n\n    with warnings.catch_warnings():", [], "without black a different expression is generated")
 m("format-cmd-dedent", "_format.py", "        return formatted_text", '        return formatted_text.replace("True", "1")', ["C16"], "format-command path yields a different syntax tree (True -> 1)")
 
 
@@ -153,7 +153,7 @@ m("inner-overlap-revert", "_rewrite_code.py", "        if any(inside(new, other)
 m("minmax-cmp-raises-revert", "_snapshot/min_max_value.py", "            except Exception:\n                # values which can not be compared", "            except ZeroDivisionError:\n                # values which can not be compared", ["C18"], "revert: raising comparison re-executed at session end")
 m("undefined-new-value-revert", "_snapshot/collection_value.py", "        if self._new_value is undefined:\n            # no value could be recorded (UsageError in clone)\n            return\n", "", ["C18", "C17"], "revert: Collection _get_changes with undefined new value")
 m("check-assert-removed", "_rewrite_code.py", "            assert lhs.range.end <= rhs.range.start, (lhs, rhs)", "            pass", ["C18"], "overlap assertion removed while inner/outer overlap is produced", more=[("_rewrite_code.py", "        if any(inside(new, other) for other in source.replacements):\n            return\n", ""), ("_rewrite_code.py", "        source.replacements = [\n            other for other in source.replacements if not inside(other, new)\n        ]\n", "")])
-m("delete-without-parent-group", "_change.py", "            if isinstance(node, ast.keyword):\n                node = node.parent", "            pass", ["C18", "C02"], "Delete of a keyword argument is grouped under the keyword node")
+m("delete-without-parent-group", "_change.py", "            if isinstance(node, ast.keyword):\n                node = node.parent", "            pass", ["C18"], "Delete of a keyword argument is grouped under the keyword node")
 
 
 # ---- C07
